@@ -354,6 +354,14 @@ func batchTrip(run *vk.Run, r *rand.Rand, kind, scratch string) {
 		want[key] = e
 		ebu.Publish(bus, *msg)
 	}
+	// another consumer of the same store reads it through an upcasting replay that turns change
+	// messages into an audit format: a reader - the stored state messages stay what was published
+	audit := ebu.New(ebu.WithStore(st.Store))
+	ebu.RegisterUpcastFunc(audit, "state.ChangeMessage", "c19.audit.v1", func(d json.RawMessage) (json.RawMessage, string, error) {
+		out, err := json.Marshal(map[string]json.RawMessage{"audited": d})
+		return out, "c19.audit.v1", err
+	})
+	audit.ReplayWithUpcast(context.Background(), ebu.OffsetOldest, func(*ebu.StoredEvent) error { return nil })
 	for _, sessions := range []int{1, 2} {
 		mat := state.NewMaterializer(state.WithStrictSchema())
 		coll := state.NewTypedCollection[Entity](state.NewMemoryStore[Entity]())
@@ -487,9 +495,27 @@ func TestC19RoundTrip(t *testing.T) {
 // arbitrary bytes
 
 type target struct {
-	mat   *state.Materializer
-	users *state.TypedCollection[Entity]
-	named *state.TypedCollection[Named]
+	mat    *state.Materializer
+	users  *state.TypedCollection[Entity]
+	named  *state.TypedCollection[Named]
+	narrow *state.TypedCollection[narrowEntity] // only in targets built with newTargetReregistered
+}
+
+// narrowEntity is a later, narrower view of the same entity type: documents that decode into Entity
+// do not all decode into it.
+type narrowEntity struct {
+	Name int  `json:"name"`
+	N    bool `json:"n"`
+}
+
+// newTargetReregistered: the entity type of users is registered a second time with another Go type
+// (the documented effect: the newer collection takes over). Whatever the materializer makes of the
+// older one - an event that cannot be applied must leave both as they were.
+func newTargetReregistered(strict bool) *target {
+	t := newTarget(strict)
+	t.narrow = state.NewTypedCollectionWithType[narrowEntity](state.NewMemoryStore[narrowEntity](), state.EntityType(Entity{}))
+	state.RegisterCollection(t.mat, t.narrow)
+	return t
 }
 
 func newTarget(strict bool) *target {
@@ -509,7 +535,11 @@ func newTarget(strict bool) *target {
 func (t *target) snapshot() string {
 	a, _ := json.Marshal(t.users.All())
 	b, _ := json.Marshal(t.named.All())
-	return string(a) + "|" + string(b) + "|" + string(t.mat.LastOffset())
+	c := []byte("-")
+	if t.narrow != nil {
+		c, _ = json.Marshal(t.narrow.All())
+	}
+	return string(a) + "|" + string(b) + "|" + string(c) + "|" + string(t.mat.LastOffset())
 }
 
 // applyChecked: Apply never panics; on error nothing changed.
@@ -611,20 +641,21 @@ func TestC19Bytes(t *testing.T) {
 	run := vk.New("C19", "bytes")
 	defer run.Finish()
 	n := run.Scale(40000, 1500000)
-	tg := [2]*target{newTarget(false), newTarget(true)}
+	tg := [3]*target{newTarget(false), newTarget(true), newTargetReregistered(false)}
 	classes := map[string]int{}
 	for i := 0; i < n; i++ {
 		r := run.Rand(uint64(i / 50))
 		if i%50 == 0 {
 			// fresh targets with some state in them
-			tg = [2]*target{newTarget(false), newTarget(true)}
+			tg = [3]*target{newTarget(false), newTarget(true), newTargetReregistered(i%100 == 0)}
 			seedState := seedMessages(r)[:2]
 			if (i/50)%3 == 2 {
 				seedState = nil // every third block: materializers that have not applied anything yet
 			}
 			for j, m := range seedState {
-				tg[0].mat.Apply(&ebu.StoredEvent{Offset: ebu.Offset(fmt.Sprint("s", j)), Type: "state.ChangeMessage", Data: m})
-				tg[1].mat.Apply(&ebu.StoredEvent{Offset: ebu.Offset(fmt.Sprint("s", j)), Type: "state.ChangeMessage", Data: m})
+				for _, tt := range tg {
+					tt.mat.Apply(&ebu.StoredEvent{Offset: ebu.Offset(fmt.Sprint("s", j)), Type: "state.ChangeMessage", Data: m})
+				}
 			}
 		}
 		rr := rand.New(rand.NewPCG(uint64(run.Seed)^uint64(i), uint64(run.Shard)))
@@ -636,7 +667,7 @@ func TestC19Bytes(t *testing.T) {
 		for k, tt := range tg {
 			msg, failed := applyChecked(tt, data, fmt.Sprintf("o%d", i))
 			if msg != "" {
-				run.Violation("statemsg:apply-bad-input", fmt.Sprintf("strict=%v: %s; input %q", k == 1, msg, clip(data)), map[string]any{"input_base64_or_text": string(data), "strict": k == 1})
+				run.Violation("statemsg:apply-bad-input", fmt.Sprintf("strict=%v reregistered=%v: %s; input %q", k == 1, k == 2, msg, clip(data)), map[string]any{"input_base64_or_text": string(data), "strict": k == 1, "entity_type_registered_twice": k == 2})
 			}
 			cls := "accepted"
 			if failed {
